@@ -39,7 +39,7 @@ Definition check_code (c : c18case) : nat :=
       else if negb (Nat.eqb (f_refits s) refits) then 4
       else if negb (Bool.eqb (f_raised s) raised) then 5
       else if negb (PrimFloat.eqb (f_e s) final_e) then 6
-      else if negb (Nat.eqb (length ratios) (if f_broke s || f_raised s then S (f_refits s) else f_refits s)) then 7
+      else if negb (Nat.eqb (length ratios) (if f_broke s || f_stalled s || f_raised s then S (f_refits s) else f_refits s)) then 7
       else if fqf_running max_iter s then 8
       else 0
   end%nat.
